@@ -50,7 +50,7 @@ func genC33(t *rapid.T) c33Case {
 	n := rapid.IntRange(1, 3).Draw(t, "ndenoms")
 	seen := map[string]bool{}
 	for i := 0; i < n; i++ {
-		base, ex := genBase(t, "base", false)
+		base, ex := genBase(t, "base", repairHopLike)
 		c.Excluded += ex
 		if seen[base] {
 			continue
